@@ -133,6 +133,119 @@ Proof.
     split; reflexivity.
 Qed.
 
+(* ---------- imports that register configurables ---------- *)
+(* no module registers anything: the model of imports without side effects *)
+Definition pure_imports (env : fenv) : Prop := forall m cs, In (m, cs) (e_mod_regs env) -> cs = [].
+
+Lemma al_get_str_In : forall (V : Type) m (l : list (string * V)) v, al_get String.eqb m l = Some v -> In (m, v) l.
+Proof.
+  intros V m l v. induction l as [|[j w] r IH]; cbn [al_get]; intros H; [discriminate|].
+  destruct (String.eqb_spec m j) as [E|_].
+  - inversion H; subst. left. reflexivity.
+  - right. apply IH. exact H.
+Qed.
+
+Lemma mod_regs_In : forall env m c, In c (mod_regs env m) -> exists cs, In (m, cs) (e_mod_regs env) /\ In c cs.
+Proof.
+  intros env m c H. unfold mod_regs in H. destruct (al_get String.eqb m (e_mod_regs env)) as [cs|] eqn:E; [|destruct H].
+  exists cs. split; [apply al_get_str_In; exact E|exact H].
+Qed.
+
+Lemma pure_mod_regs : forall env, pure_imports env -> forall m, mod_regs env m = [].
+Proof.
+  intros env Hp m. destruct (mod_regs env m) as [|c l] eqn:E; [reflexivity|].
+  destruct (mod_regs_In env m c) as [cs [A B]]; [rewrite E; left; reflexivity|].
+  rewrite (Hp m cs A) in B. destruct B.
+Qed.
+
+Lemma register_mod_pure : forall env m s, pure_imports env -> register_mod env m s = SOk s.
+Proof. intros env m s Hp. unfold register_mod. rewrite (pure_mod_regs env Hp m). reflexivity. Qed.
+
+Lemma reg_add_app : forall a b r, reg_add (a ++ b) r = reg_add b (reg_add a r).
+Proof. intros a b r. unfold reg_add. apply fold_left_app. Qed.
+
+(* the registry only GROWS, by registrations some importable module makes *)
+Definition reg_extends (env : fenv) (s s' : tstate) : Prop :=
+  exists cs, Forall (fun c => exists m, In c (mod_regs env m)) cs /\ t_reg s' = reg_add cs (t_reg s).
+
+Lemma reg_extends_eq : forall env s s', t_reg s' = t_reg s -> reg_extends env s s'.
+Proof. intros env s s' H. exists []. split; [constructor|exact H]. Qed.
+Lemma reg_extends_refl : forall env s, reg_extends env s s.
+Proof. intros env s. apply reg_extends_eq. reflexivity. Qed.
+Lemma reg_extends_trans : forall env a b c, reg_extends env a b -> reg_extends env b c -> reg_extends env a c.
+Proof.
+  intros env a b c [c1 [F1 E1]] [c2 [F2 E2]]. exists (c1 ++ c2). split; [apply Forall_app; split; assumption|].
+  rewrite reg_add_app, <- E1. exact E2.
+Qed.
+Lemma reg_extends_pure : forall env s s', pure_imports env -> reg_extends env s s' -> t_reg s' = t_reg s.
+Proof.
+  intros env s s' Hp [cs [F E]]. destruct cs as [|c l]; [exact E|].
+  inversion F as [|c0 l0 [m Hm] _]; subst. rewrite (pure_mod_regs env Hp m) in Hm. destruct Hm.
+Qed.
+
+(* a successful import changes nothing but the registry, which it extends by the module's registrations *)
+Lemma register_mod_ok_frame : forall env m s s', register_mod env m s = SOk s' ->
+  reg_extends env s s' /\ t_consts s' = t_consts s /\ t_store s' = t_store s /\ t_prov s' = t_prov s /\
+  t_imports s' = t_imports s /\ t_locked s' = t_locked s.
+Proof.
+  intros env m s s' H. unfold register_mod in H.
+  destruct (forallb (registered s) (mod_regs env m)).
+  - inversion H; subst s'. split; [apply reg_extends_refl|]. repeat split; reflexivity.
+  - destruct (t_locked s) eqn:Hl; [discriminate|]. inversion H; subst s'. split.
+    + exists (mod_regs env m). split; [|reflexivity]. apply Forall_forall. intros c Hc. exists m. exact Hc.
+    + repeat split; try reflexivity. exact Hl.
+Qed.
+
+(* a failed import (registering while locked) is the RuntimeError *)
+Lemma register_mod_err : forall env m s e, register_mod env m s = SErr e ->
+  e = SEOther "RuntimeError" [] /\ t_locked s = true.
+Proof.
+  intros env m s e H. unfold register_mod in H.
+  destruct (forallb (registered s) (mod_regs env m)); [discriminate|].
+  destruct (t_locked s); [inversion H; auto|discriminate].
+Qed.
+
+(* register_mod reads nothing but the registry and the lock *)
+Lemma register_mod_reg_lock : forall env m s s0, t_reg s = t_reg s0 -> t_locked s = t_locked s0 ->
+  match register_mod env m s, register_mod env m s0 with
+  | SOk a, SOk b => t_reg a = t_reg b /\ t_locked a = t_locked b /\
+                    t_consts a = t_consts s /\ t_store a = t_store s /\ t_prov a = t_prov s /\ t_imports a = t_imports s
+  | SErr e, SErr e' => e = e'
+  | _, _ => False
+  end.
+Proof.
+  intros env m s s0 Hr Hl. unfold register_mod.
+  assert (E : forallb (registered s) (mod_regs env m) = forallb (registered s0) (mod_regs env m)).
+  { induction (mod_regs env m) as [|c l IHl]; [reflexivity|]. cbn [forallb]. rewrite IHl.
+    unfold registered. rewrite Hr. reflexivity. }
+  rewrite <- E, <- Hl, <- Hr.
+  destruct (forallb (registered s) (mod_regs env m)).
+  - repeat split; auto.
+  - destruct (t_locked s) eqn:Hls; [reflexivity|].
+    cbn [set_reg t_reg t_locked t_consts t_store t_prov t_imports]. repeat split; auto. congruence.
+Qed.
+
+(* what a whole parse may do to registry, constants, recorded imports and lock *)
+Definition frame_gen (env : fenv) (s s' : tstate) : Prop :=
+  reg_extends env s s' /\ t_consts s' = t_consts s /\ t_imports s' = t_imports s /\ t_locked s' = t_locked s.
+Lemma frame_gen_refl : forall env s, frame_gen env s s.
+Proof. intros env s. split; [apply reg_extends_refl|]. repeat split; reflexivity. Qed.
+Lemma frame_gen_trans : forall env a b c, frame_gen env a b -> frame_gen env b c -> frame_gen env a c.
+Proof.
+  intros env a b c [A1 [A2 [A3 A4]]] [B1 [B2 [B3 B4]]]. split; [eapply reg_extends_trans; eassumption|].
+  repeat split; congruence.
+Qed.
+Lemma frame_gen_pure : forall env s s', pure_imports env -> frame_gen env s s' ->
+  t_reg s' = t_reg s /\ t_consts s' = t_consts s /\ t_imports s' = t_imports s /\ t_locked s' = t_locked s.
+Proof. intros env s s' Hp [A [B [C D]]]. split; [apply (reg_extends_pure env s s' Hp A)|]. auto. Qed.
+Lemma bind_frame_gen : forall env s sc sel arg v l s', bind s sc sel arg v l = SOk s' -> frame_gen env s s'.
+Proof.
+  intros env s sc sel arg v l s' H. destruct (bind_ok_frame _ _ _ _ _ _ _ H) as [A [B [C D]]].
+  split; [apply reg_extends_eq; exact A|]. auto.
+Qed.
+Lemma register_mod_frame_gen : forall env m s s', register_mod env m s = SOk s' -> frame_gen env s s'.
+Proof. intros env m s s' H. destruct (register_mod_ok_frame _ _ _ _ H) as [A [B [_ [_ [C D]]]]]. split; auto. Qed.
+
 (* ---------- apply_stmts: sequencing ---------- *)
 Lemma apply_stmts_cons : forall env sk fname inc st rest s im ic,
   apply_stmts env sk fname inc (st :: rest) s im ic =
@@ -149,8 +262,9 @@ Proof.
         [reflexivity|rewrite with_loc_SErr; reflexivity].
   - destruct (should_skip s sel sk); [reflexivity|].
     destruct (sm_get_match (to_key sel) (t_reg s)) as [| |k [c|]]; reflexivity.
-  - destruct (str_in m (e_modules env)); [reflexivity|].
-    destruct (sk_truthy sk); reflexivity.
+  - destruct (str_in m (e_modules env)).
+    + destruct (register_mod env m s) as [s'|e]; [reflexivity|rewrite with_loc_SErr; reflexivity].
+    + destruct (sk_truthy sk); reflexivity.
   - destruct (inc (str_of_value v) s) as [s1 r]. destruct r as [t|e];
       [reflexivity|rewrite with_loc_SErr; reflexivity].
 Qed.
@@ -186,44 +300,52 @@ Proof.
         destruct (bind s sc sel arg v (fname, line)) as [s'|e]; [apply IH; exact Hrest|reflexivity].
     + destruct (should_skip s sel sk); [apply IH; exact Hrest|].
       destruct (sm_get_match (to_key sel) (t_reg s)) as [| |k [c|]]; try reflexivity. apply IH; exact Hrest.
-    + destruct (str_in m (e_modules env)); [apply IH; exact Hrest|].
-      destruct (sk_truthy sk); [apply IH; exact Hrest|reflexivity].
+    + destruct (str_in m (e_modules env)).
+      * destruct (register_mod env m s) as [s'|e]; [apply IH; exact Hrest|reflexivity].
+      * destruct (sk_truthy sk); [apply IH; exact Hrest|reflexivity].
     + cbn in Hst. discriminate.
 Qed.
 
-(* apply_stmts never touches registry / constants / lock / recorded imports when there are no includes *)
+(* without includes apply_stmts never touches constants / lock / recorded imports, and the registry only grows by
+   what the imported modules register *)
+Theorem apply_stmts_frame_gen : forall env sk fname inc stmts s im ic s' r,
+  forallb (fun st => negb (is_include st)) stmts = true ->
+  apply_stmts env sk fname inc stmts s im ic = (s', r) -> frame_gen env s s'.
+Proof.
+  intros env sk fname inc stmts. induction stmts as [|st rest IH]; intros s im ic s' r Hn H.
+  - cbn [apply_stmts] in H. inversion H. apply frame_gen_refl.
+  - cbn [forallb] in Hn. apply andb_true_iff in Hn. destruct Hn as [Hst Hrest].
+    destruct st as [sc sel arg v line|sc sel line|m isf al line|v line]; cbn [apply_stmts] in H.
+    + destruct (String.eqb arg "").
+      * destruct (bind s _ "gin.macro" "value" v (fname, line)) as [s0|e] eqn:Hbind.
+        -- eapply frame_gen_trans; [eapply bind_frame_gen; exact Hbind|eapply IH; eassumption].
+        -- inversion H. apply frame_gen_refl.
+      * destruct (should_skip s sel sk); [eapply IH; eassumption|].
+        destruct (bind s sc sel arg v (fname, line)) as [s0|e] eqn:Hbind.
+        -- eapply frame_gen_trans; [eapply bind_frame_gen; exact Hbind|eapply IH; eassumption].
+        -- inversion H. apply frame_gen_refl.
+    + destruct (should_skip s sel sk); [eapply IH; eassumption|].
+      destruct (sm_get_match (to_key sel) (t_reg s)) as [| |k [c|]];
+        try (inversion H; apply frame_gen_refl).
+      eapply IH; eassumption.
+    + destruct (str_in m (e_modules env)).
+      * destruct (register_mod env m s) as [s0|e] eqn:Hreg.
+        -- eapply frame_gen_trans; [eapply register_mod_frame_gen; exact Hreg|eapply IH; eassumption].
+        -- inversion H. apply frame_gen_refl.
+      * destruct (sk_truthy sk); [eapply IH; eassumption|].
+        inversion H. apply frame_gen_refl.
+    + cbn in Hst. discriminate.
+Qed.
+
+(* with side-effect-free imports the registry is untouched as well *)
 Theorem apply_stmts_frame : forall env sk fname inc stmts s im ic s' r,
+  pure_imports env ->
   forallb (fun st => negb (is_include st)) stmts = true ->
   apply_stmts env sk fname inc stmts s im ic = (s', r) ->
   t_reg s' = t_reg s /\ t_consts s' = t_consts s /\ t_imports s' = t_imports s /\ t_locked s' = t_locked s.
 Proof.
-  intros env sk fname inc stmts. induction stmts as [|st rest IH]; intros s im ic s' r Hn H.
-  - cbn [apply_stmts] in H. inversion H. repeat split; reflexivity.
-  - cbn [forallb] in Hn. apply andb_true_iff in Hn. destruct Hn as [Hst Hrest].
-    assert (Hb : forall sc sel arg v l s0, bind s sc sel arg v l = SOk s0 ->
-                 apply_stmts env sk fname inc rest s0 im ic = (s', r) ->
-                 t_reg s' = t_reg s /\ t_consts s' = t_consts s /\ t_imports s' = t_imports s /\ t_locked s' = t_locked s).
-    { intros sc sel arg v l s0 Hbind Hrest'.
-      destruct (bind_ok_frame _ _ _ _ _ _ _ Hbind) as [B1 [B2 [B3 B4]]].
-      destruct (IH _ _ _ _ _ Hrest Hrest') as [A1 [A2 [A3 A4]]].
-      rewrite A1, A2, A3, A4, B1, B2, B3, B4. repeat split; reflexivity. }
-    destruct st as [sc sel arg v line|sc sel line|m isf al line|v line]; cbn [apply_stmts] in H.
-    + destruct (String.eqb arg "").
-      * destruct (bind s _ "gin.macro" "value" v (fname, line)) as [s0|e] eqn:Hbind.
-        -- eapply Hb; eassumption.
-        -- inversion H. repeat split; reflexivity.
-      * destruct (should_skip s sel sk); [eapply IH; eassumption|].
-        destruct (bind s sc sel arg v (fname, line)) as [s0|e] eqn:Hbind.
-        -- eapply Hb; eassumption.
-        -- inversion H. repeat split; reflexivity.
-    + destruct (should_skip s sel sk); [eapply IH; eassumption|].
-      destruct (sm_get_match (to_key sel) (t_reg s)) as [| |k [c|]];
-        try (inversion H; repeat split; reflexivity).
-      eapply IH; eassumption.
-    + destruct (str_in m (e_modules env)); [eapply IH; eassumption|].
-      destruct (sk_truthy sk); [eapply IH; eassumption|].
-      inversion H. repeat split; reflexivity.
-    + cbn in Hst. discriminate.
+  intros env sk fname inc stmts s im ic s' r Hp Hn H. apply (frame_gen_pure env s s' Hp).
+  eapply apply_stmts_frame_gen; eassumption.
 Qed.
 
 (* group atomicity: on failure the state is the one reached by the longest successful prefix of the group,
@@ -260,8 +382,9 @@ Proof.
       destruct (bind s sc sel arg v (fname, line)); [discriminate|inversion H; reflexivity].
   - destruct (should_skip s sel sk); [discriminate|].
     destruct (sm_get_match (to_key sel) (t_reg s)) as [| |k [c|]]; try discriminate; inversion H; reflexivity.
-  - destruct (str_in m (e_modules env)); [discriminate|].
-    destruct (sk_truthy sk); [discriminate|inversion H; reflexivity].
+  - destruct (str_in m (e_modules env)).
+    + destruct (register_mod env m s); [discriminate|inversion H; reflexivity].
+    + destruct (sk_truthy sk); [discriminate|inversion H; reflexivity].
   - discriminate.
 Qed.
 
@@ -338,25 +461,32 @@ Proof.
 Qed.
 
 (* ---------- consume ---------- *)
-Lemma consume_frame : forall env sk fname inc gs s im ic s' r,
+Lemma consume_frame_gen : forall env sk fname inc gs s im ic s' r,
   no_includes gs ->
-  consume env sk fname inc gs s im ic = (s', r) ->
-  t_reg s' = t_reg s /\ t_consts s' = t_consts s /\ t_imports s' = t_imports s /\ t_locked s' = t_locked s.
+  consume env sk fname inc gs s im ic = (s', r) -> frame_gen env s s'.
 Proof.
   intros env sk fname inc gs. induction gs as [|g rest IH]; intros s im ic s' r Hn H.
-  - cbn [consume] in H. inversion H. repeat split; reflexivity.
+  - cbn [consume] in H. inversion H. apply frame_gen_refl.
   - inversion Hn as [|g0 rest0 Hg Hrest]; subst g0 rest0.
     cbn [consume] in H.
     destruct (resolve_group s sk fname g) as [g'|e0] eqn:Hr.
     + destruct (apply_stmts env sk fname inc g' s im ic) as [s1 r1] eqn:Ha.
       assert (Hg' : forallb (fun st => negb (is_include st)) g' = true)
         by (rewrite (resolve_group_noinc _ _ _ _ _ Hr); exact Hg).
-      destruct (apply_stmts_frame _ _ _ _ _ _ _ _ _ _ Hg' Ha) as [B1 [B2 [B3 B4]]].
+      pose proof (apply_stmts_frame_gen _ _ _ _ _ _ _ _ _ _ Hg' Ha) as B.
       destruct r1 as [[im1 ic1]|e1].
-      * destruct (IH _ _ _ _ _ Hrest H) as [A1 [A2 [A3 A4]]].
-        rewrite A1, A2, A3, A4, B1, B2, B3, B4. repeat split; reflexivity.
-      * inversion H; subst s1. auto.
-    + inversion H. repeat split; reflexivity.
+      * eapply frame_gen_trans; [exact B|eapply IH; eassumption].
+      * inversion H; subst s1. exact B.
+    + inversion H. apply frame_gen_refl.
+Qed.
+
+Lemma consume_frame : forall env sk fname inc gs s im ic s' r,
+  pure_imports env -> no_includes gs ->
+  consume env sk fname inc gs s im ic = (s', r) ->
+  t_reg s' = t_reg s /\ t_consts s' = t_consts s /\ t_imports s' = t_imports s /\ t_locked s' = t_locked s.
+Proof.
+  intros env sk fname inc gs s im ic s' r Hp Hn H. apply (frame_gen_pure env s s' Hp).
+  eapply consume_frame_gen; eassumption.
 Qed.
 
 (* consequence: after a failure at group index i, the store is that of consuming firstn i groups and then the
@@ -557,23 +687,24 @@ Qed.
 
 (* the hypothesis of C16_stream_eq cannot simply be dropped: at fuel 0 the two sides name the error differently *)
 Example C16_stream_eq_needs_fuel :
-  let env := {| e_files := []; e_readers := []; e_prefixes := []; e_modules := [] |} in
+  let env := {| e_files := []; e_readers := []; e_prefixes := []; e_modules := []; e_mod_regs := [] |} in
   let s := init_tstate [] [] in
   parse_groups 0 [] false [] = ([], Some (EOther "OutOfFuel")) /\
   snd (parse_tokens 0 env SkFalse "" [] false [] s [] []) = SErr (SEOther "RecursionError" []) /\
   perr_to_serr "" (EOther "OutOfFuel") = SEOther "OutOfFuel" [].
 Proof. cbn [parse_groups parse_tokens snd perr_to_serr]. repeat split; reflexivity. Qed.
 
-(* an error never records imports and never locks/unlocks (no fuel side condition needed) *)
-Theorem C16_error_leaves_flags : forall fuel env sk fname o pending ts s im ic s' e gs pe,
+(* an error never records imports, never locks/unlocks, never touches constants; the registry only grows by the
+   registrations of the modules imported before the failure (no fuel side condition needed) *)
+Theorem C16_error_leaves_flags_gen : forall fuel env sk fname o pending ts s im ic s' e gs pe,
   parse_groups fuel o pending ts = (gs, pe) -> no_includes gs ->
   parse_tokens fuel env sk fname o pending ts s im ic = (s', SErr e) ->
-  t_imports s' = t_imports s /\ t_locked s' = t_locked s /\ t_reg s' = t_reg s /\ t_consts s' = t_consts s.
+  t_imports s' = t_imports s /\ t_locked s' = t_locked s /\ reg_extends env s s' /\ t_consts s' = t_consts s.
 Proof.
   intros fuel env sk fname o pending ts s im ic s' e gs pe H Hn Hp.
   rewrite (C16_stream_eq_gen _ _ _ _ _ _ _ _ _ _ _ _ H Hn) in Hp.
   destruct (consume env sk fname no_inc gs s im ic) as [s1 r] eqn:Hc.
-  destruct (consume_frame _ _ _ _ _ _ _ _ _ _ Hn Hc) as [A1 [A2 [A3 A4]]].
+  destruct (consume_frame_gen _ _ _ _ _ _ _ _ _ _ Hn Hc) as [A1 [A2 [A3 A4]]].
   assert (Hs : s' = s1).
   { destruct r as [[im1 ic1]|e1].
     - destruct (Nat.eqb (List.length gs) fuel); [inversion Hp; reflexivity|].
@@ -582,21 +713,45 @@ Proof.
   subst s'. auto.
 Qed.
 
-(* and on success the only flag that changes is the recorded-imports list, extended by exactly this parse's imports *)
-Theorem C16_success_records_imports : forall fuel env sk fname o pending ts s im ic s' im' ic' gs pe,
+(* with side-effect-free imports: neither lock, registry nor constants are touched *)
+Theorem C16_error_leaves_flags : forall fuel env sk fname o pending ts s im ic s' e gs pe,
+  pure_imports env ->
+  parse_groups fuel o pending ts = (gs, pe) -> no_includes gs ->
+  parse_tokens fuel env sk fname o pending ts s im ic = (s', SErr e) ->
+  t_imports s' = t_imports s /\ t_locked s' = t_locked s /\ t_reg s' = t_reg s /\ t_consts s' = t_consts s.
+Proof.
+  intros fuel env sk fname o pending ts s im ic s' e gs pe Hpure H Hn Hp.
+  destruct (C16_error_leaves_flags_gen _ _ _ _ _ _ _ _ _ _ _ _ _ _ H Hn Hp) as [A [B [C D]]].
+  repeat split; try assumption. apply (reg_extends_pure env s s' Hpure C).
+Qed.
+
+(* and on success the only other flag that changes is the recorded-imports list, extended by exactly this parse's imports *)
+Theorem C16_success_records_imports_gen : forall fuel env sk fname o pending ts s im ic s' im' ic' gs pe,
   parse_groups fuel o pending ts = (gs, pe) -> no_includes gs ->
   parse_tokens fuel env sk fname o pending ts s im ic = (s', SOk (im', ic')) ->
-  t_imports s' = t_imports s ++ im' /\ t_locked s' = t_locked s /\ t_reg s' = t_reg s /\ t_consts s' = t_consts s.
+  t_imports s' = t_imports s ++ im' /\ t_locked s' = t_locked s /\ reg_extends env s s' /\ t_consts s' = t_consts s.
 Proof.
   intros fuel env sk fname o pending ts s im ic s' im' ic' gs pe H Hn Hp.
   rewrite (C16_stream_eq_gen _ _ _ _ _ _ _ _ _ _ _ _ H Hn) in Hp.
   destruct (consume env sk fname no_inc gs s im ic) as [s1 r] eqn:Hc.
-  destruct (consume_frame _ _ _ _ _ _ _ _ _ _ Hn Hc) as [A1 [A2 [A3 A4]]].
+  destruct (consume_frame_gen _ _ _ _ _ _ _ _ _ _ Hn Hc) as [A1 [A2 [A3 A4]]].
   destruct r as [[im1 ic1]|e1]; [|discriminate].
   destruct (Nat.eqb (List.length gs) fuel); [discriminate|].
   destruct pe as [e2|]; [discriminate|].
-  inversion Hp; subst s' im' ic'. unfold add_imports. cbn [t_imports t_locked t_reg t_consts].
-  rewrite A1, A2, A3, A4. auto.
+  inversion Hp; subst s' im' ic'. unfold add_imports. cbn [t_imports t_locked t_consts].
+  rewrite A2, A3, A4. repeat split; try reflexivity.
+  destruct A1 as [cs [F E]]. exists cs. split; [exact F|exact E].
+Qed.
+
+Theorem C16_success_records_imports : forall fuel env sk fname o pending ts s im ic s' im' ic' gs pe,
+  pure_imports env ->
+  parse_groups fuel o pending ts = (gs, pe) -> no_includes gs ->
+  parse_tokens fuel env sk fname o pending ts s im ic = (s', SOk (im', ic')) ->
+  t_imports s' = t_imports s ++ im' /\ t_locked s' = t_locked s /\ t_reg s' = t_reg s /\ t_consts s' = t_consts s.
+Proof.
+  intros fuel env sk fname o pending ts s im ic s' im' ic' gs pe Hpure H Hn Hp.
+  destruct (C16_success_records_imports_gen _ _ _ _ _ _ _ _ _ _ _ _ _ _ _ H Hn Hp) as [A [B [C D]]].
+  repeat split; try assumption. apply (reg_extends_pure env s s' Hpure C).
 Qed.
 
 (* the entry point parse_config (fuel 60) *)
@@ -631,6 +786,9 @@ Print Assumptions C16_failed_parse_is_statement_prefix.
 Print Assumptions C16_stream_eq_gen.
 Print Assumptions C16_stream_eq.
 Print Assumptions C16_stream_eq'.
+Print Assumptions apply_stmts_frame_gen.
+Print Assumptions C16_error_leaves_flags_gen.
 Print Assumptions C16_error_leaves_flags.
+Print Assumptions C16_success_records_imports_gen.
 Print Assumptions C16_success_records_imports.
 Print Assumptions C16_parse_config.
